@@ -1,7 +1,7 @@
 (* C13 - correspondence cases and boolean checkers (evaluated by vm_compute on what the
    implementation wrote / loaded).  Spec lemmas of the checkers are in SerializeProofs.v. *)
 From Coq Require Import QArith ZArith List Bool.
-From LV Require Import Common.Cases Wordlist.SerializeStr Wordlist.SerializeNum Wordlist.Serialize.
+From LV Require Import Common.Cases Wordlist.SerializeStr Wordlist.SerializeNum Wordlist.Serialize Wordlist.SerializeMsa.
 From LVGen Require Import NamespaceRc.
 Import ListNotations.
 Local Open Scope Z_scope.
@@ -49,6 +49,46 @@ Definition zz_eqb (a b : list (Z * list str)) : bool :=
   list_eqb (fun p q => (fst p =? fst q) && strs_eqb (snd p) (snd q)) a b.
 
 (* ------------------------------------------------------------------ *)
+Definition opt_eqb {A} (eqb : A -> A -> bool) (a b : option A) : bool :=
+  match a, b with Some x, Some y => eqb x y | None, None => true | _, _ => false end.
+
+(* <msa> blocks and the alignment state *)
+Definition nats_eqb : list nat -> list nat -> bool := list_eqb Nat.eqb.
+Definition swaps_eqb : list (nat * nat * nat) -> list (nat * nat * nat) -> bool :=
+  list_eqb (fun a b => Nat.eqb (fst (fst a)) (fst (fst b)) && Nat.eqb (snd (fst a)) (snd (fst b)) && Nat.eqb (snd a) (snd b)).
+Definition rows_eqb : list (list str) -> list (list str) -> bool := list_eqb strs_eqb.
+(* ids, taxa, aligned rows, plain segments *)
+Definition msa_core_eqb (a b : msa_read) : bool :=
+  str_eqb (r_ids a) (r_ids b) && strs_eqb (r_taxa a) (r_taxa b) && rows_eqb (r_alm a) (r_alm b)
+  && rows_eqb (r_seqs a) (r_seqs b).
+Definition msa_read_eqb (a b : msa_read) : bool :=
+  msa_core_eqb a b && nats_eqb (r_local a) (r_local b) && swaps_eqb (r_swaps a) (r_swaps b)
+  && opt_eqb strs_eqb (r_cons a) (r_cons b).
+Definition state_eqb (eqb : msa_read -> msa_read -> bool) (a b : list (Z * msa_read)) : bool :=
+  list_eqb (fun p q => (fst p =? fst q) && eqb (snd p) (snd q)) a b.
+
+Record msa_case := {
+  mc_ref : str;
+  mc_saved : list (Z * list str * msa);       (* key, stamp lines, msa of the object that is saved (dictionary order) *)
+  mc_seqs : list (list (list str));           (* its msa['seqs'], per cognate set *)
+  mc_pre : list str;                          (* implementation: the lines it wrote before the data *)
+  mc_load : res (list (Z * msa_read))         (* implementation: msa[ref] of the loaded object (dictionary order) *)
+}.
+Definition msa_case_code (c : msa_case) : nat :=
+  let model_load := match read_msa_section (mc_pre c) with
+                    | Ok l => Ok (map (fun e => (snd (fst e), snd e)) l)
+                    | Err => Err
+                    end in
+  let in_guard := forallb (fun e => msa_okb (snd e)) (mc_saved c)
+                  && rows_eqb (concat (map (fun e => map degap (m_alm (snd e))) (mc_saved c))) (concat (mc_seqs c))
+                  && clean_strb (mc_ref c) && negb (existsb (fun x => (x =? 32) || (x =? 61) || (x =? 62) || (x =? 34)) (mc_ref c)) in
+  bit 0 (lines_eqb (msa_section (mc_ref c) (mc_saved c)) (mc_pre c)
+         && res_eqb (state_eqb msa_read_eqb) model_load (mc_load c))
+  + bit 7 (negb in_guard
+           || res_eqb (state_eqb msa_read_eqb)
+                (Ok (map (fun e => (fst (fst e), expected_read (snd e))) (mc_saved c))) (mc_load c)).
+
+(* ------------------------------------------------------------------ *)
 (* save / load case *)
 Record ser_case := {
   sc_pretty : bool;
@@ -65,6 +105,8 @@ Record ser_case := {
   sc_derived : bool;                        (* LexStat: check the types of the derived columns against the model's list *)
   sc_analysis : option (list (Z * list str) * list (Z * list str));
                                             (* result of the same analysis on the saved / the loaded object *)
+  sc_msa : option (list str * list Z * list (Z * msa_read) * list (Z * msa_read));
+                                            (* Alignments: doculects, cognate ids, msa[cogid] of the saved / of the loaded object (by key) *)
   sc_reanalysis : option (list (Z * list str) * list (Z * list str))
                                             (* Alignments only: result of align() on an already aligned object, saved / loaded *)
 }.
@@ -91,7 +133,13 @@ Definition ser_case_code (c : ser_case) : nat :=
             | Some (taxa, concepts, before, _) => pairs_eqb (pairs (sc_cols c) taxa concepts (wl_rows w)) before
             | None => true
             end
-         && (negb (sc_derived c) || derived_kinds_okb (sc_cols c) (wl_rows w)))
+         && (negb (sc_derived c) || derived_kinds_okb (sc_cols c) (wl_rows w))
+         && match sc_msa c, sc_load c with
+            | Some (taxa, cogids, saved, loaded), Ok w' =>
+                state_eqb msa_core_eqb (alignments_state (sc_cols c) c_cogid taxa cogids (wl_rows w)) saved
+                && state_eqb msa_core_eqb (alignments_state (wl_cols w') c_cogid taxa cogids (wl_rows w')) loaded
+            | _, _ => true
+            end)
   + bit 1 (negb in_guard || same_objectb w (sc_load c))
   + bit 2 (match sc_lex c with Some (_, _, before, after) => pairs_eqb before after | None => true end)
   + bit 3 (match sc_analysis c with Some (a, b) => zz_eqb a b | None => true end)
@@ -123,8 +171,6 @@ Record blk_case := {
   bk_sc_text : list str;                    (* implementation: lines between <scorer ...> and </scorer> *)
   bk_sc_load : option (list (str * list Q))
 }.
-Definition opt_eqb {A} (eqb : A -> A -> bool) (a b : option A) : bool :=
-  match a, b with Some x, Some y => eqb x y | None, None => true | _, _ => false end.
 Definition scorer_eqb (a b : list (str * list Q)) : bool :=
   list_eqb (fun p q => str_eqb (fst p) (fst q) && qlist_eqb (snd p) (snd q)) a b.
 
